@@ -9,7 +9,10 @@ BOUND = ("networks with <= 6(7) variables (exhaustive 1-variable, sampled 2-vari
          "arbitrary calls (all strategies, queries on stubs, skipping), then pickle round trip / reclaim_node_data / both on one diagram and nothing on its twin, "
          "then a common history H2 of 1-5 calls (incl. succession_control); ids, spaces, flags, edges, motif lists, depths, seeds and sets compared exactly right "
          "after the transformation, after every H2 call (with its return value) and at the end; candidates compared exactly except that a reclaimed candidate "
-         "list may be answered by the node's seeds (documented behaviour of reclaim_node_data)")
+         "list may be answered by the node's seeds (documented behaviour of reclaim_node_data); about half of the cases run under a NON-default configuration "
+         "(max_motifs_per_node in 0..5, attractor_candidates_limit / retained_set_optimization_threshold in 0..3, minimum_simulation_budget in {0,1}, "
+         "nfvs_size_threshold in {0,1,3}), first on networks whose root has 4-6 stable motifs (k independent switches) so that H2 calls hit the limits; the "
+         "configuration itself is compared too")
 RULE = "non-trivial = the diagram had at least 3 nodes or some cached attractor data at the moment of the transformation"
 CASE_TIMEOUT = 60.0
 
@@ -17,7 +20,36 @@ OPS1 = families.PLAIN_OPS + families.QUERY_OPS * 2 + families.SKIP_OPS + ["block
 OPS2 = families.PLAIN_OPS + families.QUERY_OPS * 2 + families.SKIP_OPS + ["control"]
 
 
+TRANSFORMS = [["pickle"], ["reclaim"], ["reclaim", "pickle"], ["pickle", "reclaim"], ["pickle", "pickle"]]
+
+
+def shape_cases(seed, tier):
+    """Non-default configuration + round trip + a later call whose outcome depends on the configured value."""
+    h1s = [[], [["succ", 0]], [["succ", 0], ["cands", 0, True, True]], [["bfs", None, 1, None]], [["seeds", 0, False]]]
+    h2s = [[["succ", 0]], [["bfs", None, None, None]], [["cands", 0, True, True], ["seeds", 0, False]], [["dfs", None, None, None], ["seeds", 1, False]],
+           [["block", True, None, True, False]], [["min", None, None, False], ["seeds", 0, False]]]
+    k = 0
+    for name, bnet in families.MANY_MOTIFS.items():
+        for cfg in ({"max_motifs_per_node": 4}, {"max_motifs_per_node": 2}, {"max_motifs_per_node": 5}, {"attractor_candidates_limit": 1},
+                    {"attractor_candidates_limit": 3, "retained_set_optimization_threshold": 0}, {"max_motifs_per_node": 6, "attractor_candidates_limit": 2}):
+            for t in (["pickle"], ["reclaim", "pickle"], ["reclaim"]):
+                k += 1
+                yield {"net": name, "bnet": bnet, "config": cfg, "h1": h1s[k % len(h1s)], "transform": t, "h2": h2s[k % len(h2s)]}
+                yield {"net": name, "bnet": bnet, "config": cfg, "h1": h1s[(k // 2) % len(h1s)], "transform": t, "h2": h2s[(k * 5 + 1) % len(h2s)]}
+    nets = list(families.deep_nets(seed, tier)) + list(families.block_nets(seed, tier))
+    random.Random(seed * 3 + 1).shuffle(nets)
+    for name, bnet in nets:
+        names = families.variables(bnet)
+        rng = random.Random(f"{seed}-{name}-c16-cfg")
+        yield {"net": name, "bnet": bnet, "config": families.config_variant(rng), "h1": families.random_history(rng.randrange(1 << 30), names, rng.randint(0, 3), OPS1),
+               "transform": rng.choice(TRANSFORMS), "h2": families.random_history(rng.randrange(1 << 30), names, rng.randint(1, 4), OPS1)}
+
+
 def cases(seed, tier):
+    yield from families.interleave((shape_cases(seed, tier), 1), (general_cases(seed, tier), 4))
+
+
+def general_cases(seed, tier):
     for name, bnet in families.network_family(seed, tier, hand_max_vars=9):
         names = families.variables(bnet)
         for rnd in range(4 if tier == "quick" else 10):
@@ -33,7 +65,9 @@ def cases(seed, tier):
                     h2.append(["control", families.random_space(rng, names, 0.4) or {names[0]: 1}, rng.choice(["internal", "all"]), rng.choice([None, 1, 2]), [], rng.random() < 0.5, False])
                 else:
                     h2.append(families.random_step(rng, names, [op]))
-            yield {"net": name, "bnet": bnet, "h1": h1, "transform": rng.choice([["pickle"], ["reclaim"], ["reclaim", "pickle"], ["pickle", "reclaim"], ["pickle", "pickle"]]), "h2": h2}
+            transform = rng.choice(TRANSFORMS)
+            cfg = families.config_variant(rng) if rnd % 2 else {}  # every second round: a non-default configuration
+            yield {"net": name, "bnet": bnet, "config": cfg, "h1": h1, "transform": transform, "h2": h2}
 
 
 def compare(a, b, when, tolerate_reclaim=True):
@@ -60,8 +94,8 @@ def compare(a, b, when, tolerate_reclaim=True):
 def check_with_info(case):
     net = oracle.Net.from_bnet(case["bnet"])
     info = net_info(net)
-    a = make_sd(case["bnet"])
-    b = make_sd(case["bnet"])
+    a = make_sd(case["bnet"], case.get("config"))
+    b = make_sd(case["bnet"], case.get("config"))
     a, la = run_history(a, case["h1"])
     b, lb = run_history(b, case["h1"])
     out = []
@@ -74,6 +108,11 @@ def check_with_info(case):
     for t in case["transform"]:
         a, _ = run_step(a, [t])
     out += compare(dump(a), d0, f"right after {case['transform']}")
+    cfg_out = []  # reported, but H2 is still run: a changed configuration must also show in a later call's behaviour when it matters
+    if dict(a.config) != dict(b.config):
+        diff = {k: (dict(a.config).get(k), dict(b.config).get(k)) for k in set(a.config) | set(b.config) if dict(a.config).get(k) != dict(b.config).get(k)}
+        cfg_out.append(fail("config_changed", "the configuration is part of the diagram's state and is preserved (every later call must behave as on the untouched diagram)",
+                        f"right after {case['transform']}", observed={k: v[0] for k, v in diff.items()}, expected={k: v[1] for k, v in diff.items()}))
     if dump(b) != d0:
         out.append(fail("twin_changed", "harness: the twin must be untouched"))
     for k, step in enumerate(case["h2"]):
@@ -85,7 +124,7 @@ def check_with_info(case):
             out.append(fail("later_call_differs", "every later query, expansion, attractor computation or control call gives the same answer as on the untouched diagram",
                             f"after {case['transform']}, H2 step {k} {step}", observed=ra, expected=rb))
         out += compare(dump(a), dump(b), f"after {case['transform']} and H2 step {k} {step}")
-    return out, info
+    return cfg_out + out, info
 
 
 def check(case):
